@@ -363,6 +363,11 @@ def apply_op(world, objs, tok):
         return i, 'CalculationError', None
     except ValueError as e:
         return i, 'ValueError', f'{tok}: ValueError {e}'
+    except Exception as e:   # noqa
+        # any other exception class: no request of these histories raises it on a freshly
+        # constructed pulse ("raises an exception only if it would on the fresh pulse")
+        return i, type(e).__name__, (f'{tok}: raised {type(e).__name__}: {str(e)[:120]} — the same '
+                                     f'request on a freshly constructed equal pulse is served')
     raise ValueError('unknown op ' + tok)
 
 
